@@ -11,6 +11,7 @@
  *   newref | tagnewref T | number T | exist T R | check T R | length T R
  *   findall T R D      (D 1 forward, 2 backward: iterate Hfind from the start until FAIL)
  *   dump               (DD table slot by slot, private header only)
+ *   eof                (file_rec->f_end_off and the block/element extents it has to cover)
  */
 #include <stdio.h>
 #include <stdlib.h>
@@ -144,6 +145,21 @@ int main(int argc, char **argv)
             do_findall(atol(a[0]), argref(a[1]), atol(a[2]));
         else if (!strcmp(op, "dump"))
             do_dump();
+        else if (!strcmp(op, "eof")) { /* end of file as the library believes it, with the layout it must cover */
+            filerec_t *fr = HAatom_object(fid);
+            ddblock_t *b;
+            if (fr == NULL) { printf("eof => fail\n"); }
+            else {
+                printf("eof => %ld", (long)fr->f_end_off);
+                for (b = fr->ddhead; b != NULL; b = b->next) {
+                    int i;
+                    printf(" | %ld:%d", (long)b->myoffset, (int)b->ndds);
+                    for (i = 0; i < b->ndds; i++)
+                        printf(" %ld+%ld", (long)b->ddlist[i].offset, (long)b->ddlist[i].length);
+                }
+                printf("\n");
+            }
+        }
         else
             printf("badop %s => fail\n", op);
         fflush(stdout);
